@@ -303,6 +303,9 @@ func (g *Gen) callAsserts(st *State, short string, vars map[string]Val, pos toke
 
 func (g *Gen) applyContractX(st *State, c *Contract, key string, names []string, args []Val, sig *types.Signature, resTy types.Type, pos token.Pos, inRepo bool, extra map[string]Val) Val {
 	short := ShortKey(key)
+	if g.wantCallSt {
+		g.callStates[short] = append(g.callStates[short], st.clone())
+	}
 	if c == nil {
 		v0 := map[string]Val{}
 		for i, n := range names {
